@@ -2,10 +2,13 @@
 #include "scenarios.hpp"
 #include <algorithm>
 #include <set>
+#include <functional>
 
 namespace e1 {
 
 // ------------------------------------------------------------------ builders
+static ref::Prop glue_typical(uint8_t id) { auto d = ref::prop_def(id); switch (d->kind) { case ref::K_BYTE: return ref::pnum(id, 1); case ref::K_U16: return ref::pnum(id, 0x1234); case ref::K_U32: return ref::pnum(id, 0x01020304); case ref::K_VARINT: return ref::pnum(id, 300);
+    case ref::K_UTF8: return ref::pstr(id, "str"); case ref::K_BIN: return ref::pstr(id, std::string("\x00\x01\xff", 3)); default: return ref::ppair("k", "v"); } }
 static Action A(Action::K k) { Action a; a.k = k; return a; }
 static Action RUN() { return A(Action::RUN); }
 static Action PUB(int qos, int tag, bool retain = false, ref::Props props = {}) { Action a = A(Action::PUB); a.qos = qos; a.tag = tag; a.retain = retain; a.topic = "t/" + std::to_string(tag); a.payload = "payload-" + std::to_string(tag); a.props = std::move(props); return a; }
@@ -80,7 +83,7 @@ static void mon_c02(World& w, const char* prop) {
         if (!is_user_op(o) || o.expect_reject) continue;
         if (o.kind == Action::PUB && o.qos == 0) { if (o.completions && transport_error(o.ec) && o.epoch == w.ops.back().epoch) {} continue; }
         bool cancelled_by_caller = o.signalled != 0 || o.epoch != (w.epoch - (w.sc.epilogue_cancel ? 1 : 0)) ;
-        if (cancelled_by_caller) continue;
+        if (cancelled_by_caller || o.after_stop) continue;   // ops issued on a client that is not running are not 'accepted and retried'
         if (o.completions == 0 || (o.t_done >= 0 && o.ec == asio::error::operation_aborted && w.drain_result.done && o.completions == 1 && o.wire_mark_done == w.broker->wire.size() && w.capped)) {
             w.vio(P + ":not-completed:" + opname(o) + ":" + sn, "accepted " + opname(o) + " (tag " + std::to_string(o.tag) + ") had not completed " + (w.capped ? "when the " + w.cap_reason + " was reached" : "although no event is enabled any more") + " after a fault-free suffix");
             continue; }
@@ -209,6 +212,313 @@ static void mon_c05(World& w) {
         w.vio("C05:context-not-drained:" + sn, "after cancel() the execution context still has work: parked stream ops=" + std::to_string(w.drain_result.parked) + " timers=" + std::to_string(w.drain_result.timers) + " stopped=" + std::to_string(w.drain_result.ioc_stopped));
 }
 
+
+// C05 additions: operations outstanding when the client was stopped must end with operation_aborted ---------
+static void mon_c05_stop(World& w) {
+    const std::string& sn = w.sc.name;
+    if (!w.stop_snap.done) return;
+    std::string what = w.sc.inject ? std::string(w.sc.inject->k == Action::CANCEL ? "cancel" : w.sc.inject->k == Action::DISC ? "async_disconnect" : w.sc.inject->k == Action::DESTROY ? "destruction" : w.sc.inject->k == Action::MOVE_ASSIGN ? "move-assignment" : "stop") : "stop";
+    for (auto& o : w.ops) {
+        if (o.epoch != 0 || o.kind == Action::DISC) continue;       // ops of the stopped incarnation
+        if (o.t_done >= 0 && o.t_done > w.t_stop && o.ec != asio::error::operation_aborted && !(o.kind == Action::RECV && o.ec == boost::system::errc::success && false))
+            w.vio("C05:not-aborted-after-" + what + ":" + opname(o) + ":" + sn, opname(o) + " completed with '" + o.ec.message() + "' after the client had been stopped (" + what + ")");
+    }
+    if (w.stop_snap.incomplete > 0) {
+        for (auto& o : w.ops) if (o.epoch == 0 && o.kind != Action::DISC && (o.completions == 0 || o.t_done > w.stop_snap.t))
+            { w.vio("C05:outstanding-after-" + what + ":" + opname(o) + ":" + sn, opname(o) + " (op " + std::to_string(o.id) + ") had not completed once " + what + " finished and the context was drained without advancing time"); break; }
+    }
+    if (w.stop_snap.parked || w.stop_snap.timers || (!w.stop_snap.ioc_stopped && w.newer_pending_at_snap == 0))
+        w.vio("C05:context-not-drained-after-" + what + ":" + sn, "after " + what + " the context still has work: parked stream ops=" + std::to_string(w.stop_snap.parked) + " timers=" + std::to_string(w.stop_snap.timers) + " stopped=" + std::to_string(w.stop_snap.ioc_stopped));
+}
+
+// C09 ---------------------------------------------------------------------------------------
+static void mon_c09(World& w) {
+    const std::string& sn = w.sc.name;
+    const OpRec* d = nullptr; for (auto& o : w.ops) if (o.kind == Action::DISC && !o.expect_reject) { d = &o; break; }
+    if (!d) return;
+    if (d->completions == 0) { if (!(w.capped && w.cap_reason.rfind("REPLAY", 0) == 0)) w.vio("C09:never-completed:" + sn, "async_disconnect never completed"); return; }
+    int64_t dt = d->t_done - d->t_init;
+    if (dt > 5000000000LL) w.vio("C09:late-completion:" + sn, "async_disconnect completed " + std::to_string(dt / 1e9) + " s after initiation (limit 5 s)");
+    // expected DISCONNECT packet
+    ref::Packet exp; exp.type = ref::DISCONNECT; exp.rc = d->rc < 0 ? 0 : uint8_t(d->rc); exp.props = d->props;
+    // per connection: writes started after initiation
+    std::map<int, std::vector<const sim::WriteLog*>> per;
+    size_t restart_seq = SIZE_MAX; for (auto& o : w.ops) if (o.kind == Action::RUN && o.id > d->id) { restart_seq = o.op_seq_init; break; }
+    for (auto& wl : w.net->wlog) if (wl.seq_start > d->op_seq_init && wl.seq_start <= restart_seq && wl.conn >= 0) per[wl.conn].push_back(&wl);
+    // writes still parked (never completed) also count
+    for (auto& kv : per) {
+        bool seen_disc = false;
+        for (auto* wl : kv.second) {
+            auto pk = packets_in(wl->data); if (pk.empty()) continue;
+            bool all_handshake = true; for (auto& q : pk) { uint8_t t = uint8_t(q.second[0]) >> 4; if (t != ref::CONNECT && t != ref::AUTH) all_handshake = false; }
+            if (all_handshake && !seen_disc) continue;
+            if (seen_disc) { w.vio("C09:write-after-disconnect:" + sn, "something was written on connection " + std::to_string(kv.first) + " after the DISCONNECT"); return; }
+            auto r = ref::decode(pk[0].second);
+            if (pk.size() != 1 || r.st != ref::D_OK || r.pkt.type != ref::DISCONNECT) {
+                w.vio("C09:disconnect-not-first:" + sn, "after async_disconnect the first thing written on connection " + std::to_string(kv.first) + " is not a lone DISCONNECT (" + std::to_string(pk.size()) + " packet(s), first type " + ref::ptype_name(uint8_t(pk[0].second[0]) >> 4) + ")"); return; }
+            uint8_t rc = r.pkt.has_rc ? r.pkt.rc : 0;
+            bool props_ok = ref::props_equal(r.pkt.props, exp.props) || (r.pkt.props.empty() && d->tag == 777 /* oversized: properties dropped */);
+            if (rc != uint8_t(d->qos) || !props_ok) { w.vio("C09:wrong-disconnect:" + sn, "DISCONNECT carries reason " + std::to_string(rc) + " / " + std::to_string(r.pkt.props.size()) + " properties instead of the values given"); return; }
+            seen_disc = true;
+        }
+    }
+    // silence afterwards
+    if (w.net->connects_after_stop > 0) w.vio("C09:connect-after-completion:" + sn, "a connection was opened after async_disconnect completed and before async_run was called again");
+    if (w.net->writes_started_after_stop > 0) w.vio("C09:write-after-completion:" + sn, "something was written after async_disconnect completed and before async_run was called again");
+}
+
+// C10 ---------------------------------------------------------------------------------------
+static void mon_c10(World& w) {
+    const Scenario& sc = w.sc; const std::string& sn = sc.name; auto& wire = w.broker->wire;
+    // CONNECT contents
+    ref::Props expp = sc.connect_props; if (sc.auth.present) { expp.erase(std::remove_if(expp.begin(), expp.end(), [](const ref::Prop& p) { return p.id == 0x15 || p.id == 0x16; }), expp.end()); expp.push_back(ref::pstr(0x15, sc.auth.method)); expp.push_back(ref::pstr(0x16, "init")); }
+    for (size_t c = 0; c < w.net->conns.size(); ++c) {
+        const bkr::WireEvt* first = nullptr; for (auto& e : wire) if (e.conn == int(c) && e.c2b) { first = &e; break; }
+        if (!first || first->malformed || first->pkt.type != ref::CONNECT) continue;   // non-CONNECT first packets are reported by the broker monitor
+        const ref::Packet& p = first->pkt; std::string why;
+        if (p.client_id != sc.client_id) why = "client identifier";
+        else if (p.user.has_value() != !sc.user.empty() || (p.user && *p.user != sc.user)) why = "user name";
+        else if (p.pass.has_value() != !sc.pass.empty() || (p.pass && *p.pass != sc.pass)) why = "password";
+        else if (p.keep_alive != sc.keep_alive) why = "keep alive";
+        else if (p.clean_start) why = "clean start";
+        else if (p.has_will != sc.will.present) why = "will flag";
+        else if (p.has_will && (p.will_topic != sc.will.topic || p.will_payload != sc.will.payload || p.will_qos != sc.will.qos || p.will_retain != sc.will.retain || !ref::props_equal(p.will_props, sc.will.props))) why = "will";
+        else if (!ref::props_equal(p.props, expp)) why = "properties";
+        if (!why.empty()) { w.vio("C10:connect-differs:" + why + ":" + sn, "CONNECT on connection " + std::to_string(c) + " does not carry the configured " + why); break; }
+    }
+    // attempts: order, 5 s abandon, pauses
+    struct Att { int stream; int64_t start, end; bool ok; uint32_t addr; size_t seq; };
+    std::vector<Att> atts;
+    for (auto& st : w.net->streams) { if (st->connect_started_ns < 0) continue; Att a; a.stream = st->id; a.seq = st->connect_seq; a.start = st->connect_started_ns; a.addr = st->connect_ep.address().to_v4().to_uint();
+        bool hs_ok = st->conn >= 0 && w.broker->handshake_done(st->conn) ; a.ok = hs_ok;
+        a.end = hs_ok ? st->closed_ns : (st->closed_ns >= 0 ? st->closed_ns : st->connect_done_ns);
+        if (hs_ok) for (int64_t t : {st->first_error_ns, st->read_cancelled_ns}) if (t >= 0 && (a.end < 0 || t < a.end)) a.end = t;
+        atts.push_back(a); }
+    std::sort(atts.begin(), atts.end(), [](const Att& a, const Att& b) { return a.stream < b.stream; });
+    // expected endpoint cycle from the host list
+    std::vector<uint32_t> cycle; { std::string h = sc.hosts; size_t p = 0; while (p <= h.size()) { size_t q = h.find(',', p); std::string one = h.substr(p, q == std::string::npos ? std::string::npos : q - p); size_t a = one.find_first_not_of(' '); size_t b = one.find_first_of(": ", a);
+            std::string name = one.substr(a, b == std::string::npos ? std::string::npos : b - a); if (name.size() == 2 && name[0] == 'b') { int i = name[1] - '0'; if (!(sc.dns_fail_mask & (1u << i))) { cycle.push_back((10u << 24) | uint32_t(10 + i)); if (sc.dns_two_mask & (1u << i)) cycle.push_back((10u << 24) | (1u << 8) | uint32_t(10 + i)); } }
+            if (q == std::string::npos) break; p = q + 1; } }
+    if (cycle.empty()) return;
+    for (size_t k = 0; k < atts.size(); ++k) {
+        const Att& a = atts[k];
+        if (!a.ok && a.end >= 0 && a.end - a.start > 5000000000LL) { w.vio("C10:handshake-not-abandoned-in-5s:" + sn, "connection attempt on stream " + std::to_string(a.stream) + " lasted " + std::to_string((a.end - a.start) / 1e9) + " s"); break; }
+        if (k == 0) { if (a.addr != cycle[0]) { w.vio("C10:first-host:" + sn, "first connection attempt did not go to the first broker of the list"); break; } continue; }
+        const Att& pr = atts[k - 1];
+        { bool restarted = false; for (auto& o : w.ops) if (o.kind == Action::RUN && o.op_seq_init >= pr.seq && o.op_seq_init < a.seq) restarted = true; if (w.drain_result.done && false) restarted = true;
+          if (restarted) { if (a.addr != cycle[0]) { w.vio("C10:first-host:" + sn, "first connection attempt after a restart did not go to the first broker of the list"); break; } continue; } }
+        size_t pi = std::find(cycle.begin(), cycle.end(), pr.addr) - cycle.begin(); size_t ci = std::find(cycle.begin(), cycle.end(), a.addr) - cycle.begin();
+        if (pi >= cycle.size() || ci >= cycle.size()) { w.vio("C10:unknown-endpoint:" + sn, "connection attempt to an address outside the broker list"); break; }
+        // a two-address host whose first address succeeded moves on to the next host, otherwise to the next address
+        bool wrap = false; size_t expect = (pi + 1) % cycle.size();
+        if (pr.ok && (cycle[pi] >> 8 & 0xFF) == 0 && expect < cycle.size() && (cycle[expect] >> 8 & 0xFF) == 1) expect = (expect + 1) % cycle.size();
+        wrap = expect <= pi;
+        if (ci != expect) { w.vio("C10:rotation-order:" + sn, "attempt " + std::to_string(k) + " went to endpoint #" + std::to_string(ci) + " of the list, expected #" + std::to_string(expect)); break; }
+        if (pr.end < 0) continue;
+        int64_t gap = a.start - pr.end;
+        if (!wrap && gap != 0 && !pr.ok) { w.vio("C10:pause-inside-list:" + sn, "pause of " + std::to_string(gap / 1e9) + " s between attempts inside the broker list"); break; }
+        if (wrap && (gap < 500000000LL || gap > 16500000000LL) && !w.stopped_phase && w.epoch == (w.sc.epilogue_cancel ? 1 : 0)) { w.vio("C10:wrap-pause-out-of-range:" + sn, "pause of " + std::to_string(gap / 1e9) + " s at wrap-around of the broker list (allowed 0.5-16.5 s)"); break; }
+    }
+}
+
+// C11 (system half) -------------------------------------------------------------------------
+static void mon_c11(World& w) {
+    const std::string& sn = w.sc.name;
+    if (w.net->max_attempts_in_progress > 1) w.vio("C11:overlapping-attempts:" + sn, std::to_string(w.net->max_attempts_in_progress) + " connection attempts were in progress at the same time");
+    if (w.net->connects_after_stop > 0) w.vio("C11:connect-after-cancel:" + sn, "a connection attempt started after cancel()");
+    mon_c02(w, "C11");
+}
+
+// C12 ---------------------------------------------------------------------------------------
+static void mon_c12(World& w) {
+    const Scenario& sc = w.sc; const std::string& sn = sc.name; auto& wire = w.broker->wire;
+    for (size_t c = 0; c < w.broker->cs.size(); ++c) { auto& cs = w.broker->cs[c]; if (!cs.handshake_ok) continue;
+        int K = sc.keep_alive; for (auto& q : cs.connack_props_sent) if (q.id == 0x13) K = int(q.num);
+        int64_t Kns = int64_t(K) * 1000000000LL; const sim::Conn& conn = w.net->conns[c]; auto& st = w.net->streams[conn.stream];
+        // time at which the client processed the CONNACK = the first read start after it / first activity
+        int64_t t_ca = -1; { size_t calen = 0; for (auto& e : wire) if (e.conn == int(c) && !e.c2b && e.pkt.type == ref::CONNACK) { calen = e.raw.size(); break; } for (auto& m : conn.read_marks) if (m.first >= calen) { t_ca = m.second; break; } }
+        if (t_ca < 0) continue;   // the client never read the CONNACK
+        int64_t t_end = st->first_error_ns >= 0 ? st->first_error_ns : (st->closed_ns >= 0 ? st->closed_ns : w.now());
+        if (st->shut && st->closed_ns < 0) t_end = w.now();
+        // a PINGREQ is 'sent' when its write starts; the next interval runs from the completion of that write (transport latency excluded)
+        std::vector<std::pair<int64_t, int64_t>> pings; for (auto& wl : w.net->wlog) if (wl.conn == int(c)) for (auto& pk : packets_in(wl.data)) if ((uint8_t(pk.second[0]) >> 4) == ref::PINGREQ) pings.emplace_back(wl.t_start, wl.t);
+        if (st->write_parked && st->lw_data.size() >= 2 && (uint8_t(st->lw_data[0]) >> 4) == ref::PINGREQ) pings.emplace_back(st->lw_start_ns, w.now());
+        if (K == 0) { if (!pings.empty()) { w.vio("C12:ping-with-keepalive-0:" + sn, "PINGREQ sent although the negotiated keep-alive is 0"); return; }
+            continue; }
+        int64_t prev = t_ca;
+        for (auto& pg : pings) { int64_t t = pg.first; if (t - prev > Kns) { w.vio("C12:ping-late:" + sn, "PINGREQ " + std::to_string((t - prev) / 1e9) + " s after the previous one / the CONNACK with keep-alive " + std::to_string(K)); return; } prev = pg.second; }
+        // the connection stayed up longer than K after the last ping without a new one (only when nothing else disturbed it)
+        bool disturbed = conn.dead || conn.broker_closed;
+        if (!disturbed && t_end - prev > Kns && !st->write_parked) { w.vio("C12:ping-missing:" + sn, "no PINGREQ within " + std::to_string(K) + " s (connection idle for " + std::to_string((t_end - prev) / 1e9) + " s)"); return; }
+    }
+    // silence abandon: exactly 1.5 K after the last byte / the start of the read
+    for (size_t c = 0; c < w.broker->cs.size(); ++c) { auto& cs = w.broker->cs[c]; if (!cs.handshake_ok) continue;
+        int K = sc.keep_alive; for (auto& q : cs.connack_props_sent) if (q.id == 0x13) K = int(q.num);
+        const sim::Conn& conn = w.net->conns[c]; auto& st = w.net->streams[conn.stream];
+        // abandoned for silence = the timed read was cancelled by its timer while nothing else was wrong with the connection
+        int64_t t_abandon = st->read_cancelled_ns;
+        bool abandoned_by_client = t_abandon >= 0 && !conn.dead && !conn.broker_closed && !w.broker->cs[c].disconnected && !(st->closed_ns >= 0 && st->closed_ns < t_abandon) && !(st->first_error_ns >= 0 && st->first_error_ns <= t_abandon);
+        bool stopped_by_app = w.t_stop >= 0 && t_abandon >= w.t_stop;
+        if (!abandoned_by_client || stopped_by_app || t_abandon < 0) {
+            // still alive at the end: must not have been silent for more than 1.5 K
+            if (K > 0 && !conn.dead && !conn.broker_closed && st->closed_ns < 0 && !st->shut && conn.last_read_ns >= 0 && w.t_stop < 0) {
+                int64_t silent = w.now() - conn.last_read_ns; if (silent > int64_t(K) * 1500000000LL && st->read_parked) { w.vio("C12:silent-connection-kept:" + sn, "connection silent for " + std::to_string(silent / 1e9) + " s with keep-alive " + std::to_string(K) + " was not abandoned"); return; } }
+            continue; }
+        int64_t silent = t_abandon - std::max(conn.last_read_ns, conn.first_read_start_ns);
+        if (K == 0) { w.vio("C12:abandoned-with-keepalive-0:" + sn, "the client abandoned a connection for silence although the keep-alive is 0"); return; }
+        int64_t limit = int64_t(K) * 1500000000LL;
+        if (silent < limit) { w.vio("C12:abandoned-early:" + sn, "connection abandoned after " + std::to_string(silent / 1e9) + " s of silence, keep-alive " + std::to_string(K) + " (1.5 K = " + std::to_string(limit / 1e9) + " s)"); return; }
+        if (silent > limit) { w.vio("C12:abandoned-late:" + sn, "connection abandoned only after " + std::to_string(silent / 1e9) + " s of silence, keep-alive " + std::to_string(K)); return; }
+    }
+}
+
+// C13 ---------------------------------------------------------------------------------------
+static void mon_c13(World& w) {
+    const std::string& sn = w.sc.name; auto& wire = w.broker->wire;
+    // reference: replay the broker's handshake history and the successful subscriptions
+    struct Ev { size_t mark; int kind; int conn; };   // kind 0 = successful subscription (by completion mark), 1 = handshake (sp), 2 = handshake (no sp)
+    std::vector<Ev> evs;
+    for (auto& o : w.ops) if (o.kind == Action::SUB && o.completions && !o.ec) { bool ok = false; for (auto c : o.rcs) if (c < 0x80) ok = true; if (ok) evs.push_back({o.wire_mark_done, 0, -1}); }
+    // only handshakes the client completed count: the CONNACK must have been read in full
+    int hs = 0; for (size_t i = 0; i < wire.size(); ++i) { auto& e = wire[i]; if (!e.c2b && !e.malformed && e.pkt.type == ref::CONNACK && e.pkt.rc == 0) {
+        bool read_full = false; for (auto& m : w.net->conns[e.conn].read_marks) if (m.first >= e.raw.size()) read_full = true; if (!read_full) continue;
+        hs++; evs.push_back({i, e.pkt.session_present ? 1 : 2, e.conn}); } }
+    std::stable_sort(evs.begin(), evs.end(), [](const Ev& a, const Ev& b) { return a.mark < b.mark; });
+    bool subs = false; int expected = 0; bool first = true; std::vector<int> expire_conns;
+    for (auto& e : evs) { if (e.kind == 0) subs = true; else { if (!first && e.kind == 2 && subs) { expected++; subs = false; expire_conns.push_back(e.conn); } else if (e.kind == 2) { /* nothing to report */ } first = false; } }
+    // was every CONNACK actually consumed by the client? only count handshakes the client completed: approximate by requiring a later client packet or a parked read on that connection
+    int got = 0; std::vector<const OpRec*> recvs; for (auto& o : w.ops) if (o.kind == Action::RECV && o.completions) recvs.push_back(&o);
+    std::sort(recvs.begin(), recvs.end(), [](const OpRec* a, const OpRec* b) { return a->recv_seq < b->recv_seq; });
+    for (auto* r : recvs) if (r->ec.value() == 102 /* client::error::session_expired */ && r->ec != asio::error::operation_aborted) got++;
+    if (got > expected) w.vio("C13:spurious-session-expired:" + sn, std::to_string(got) + " session_expired reports, reference expects " + std::to_string(expected));
+    if (got < expected && !w.capped) {
+        // the last expected report may still be undelivered only if its CONNACK was never read by the client
+        int deliverable = 0; for (int c : expire_conns) { bool read = w.net->conns[c].bytes_b2c_read > 0; if (read) deliverable++; }
+        bool receiving = false; for (auto& o : w.ops) if (o.kind == Action::RECV) receiving = true;
+        if (receiving && got < deliverable) w.vio("C13:missing-session-expired:" + sn, std::to_string(got) + " session_expired reports, reference expects " + std::to_string(deliverable));
+    }
+    // ordering: the report precedes any message the broker sent on the new connection
+    for (size_t k = 0; k < recvs.size(); ++k) { if (recvs[k]->ec.value() != 102) continue; }
+    std::map<std::string, int> conn_of_msg; for (auto& e : wire) if (!e.c2b && !e.malformed && e.pkt.type == ref::PUBLISH) if (!conn_of_msg.count(e.pkt.payload)) conn_of_msg[e.pkt.payload] = e.conn;
+    int reports_seen = 0;
+    for (auto* r : recvs) { if (r->ec.value() == 102) { reports_seen++; continue; } if (r->ec) continue; auto it = conn_of_msg.find(r->r_payload); if (it == conn_of_msg.end()) continue;
+        int need = 0; for (size_t i = 0; i < expire_conns.size(); ++i) if (expire_conns[i] <= it->second) need = int(i) + 1;
+        if (reports_seen < need) { w.vio("C13:message-before-session-expired:" + sn, "a message of the new session was delivered before the session_expired report"); break; } }
+}
+
+// C14 ---------------------------------------------------------------------------------------
+static void mon_c14(World& w) {
+    const std::string& sn = w.sc.name; auto& wire = w.broker->wire;
+    for (auto& o : w.ops) { if ((o.kind != Action::SUB && o.kind != Action::UNSUB) || !o.completions || o.ec) continue;
+        int reqt = o.kind == Action::SUB ? ref::SUBSCRIBE : ref::UNSUBSCRIBE, ackt = o.kind == Action::SUB ? ref::SUBACK : ref::UNSUBACK; size_t n = o.filters.size();
+        bool ok = false; std::string why = "the broker never received the request with exactly the given topics, options and properties";
+        for (size_t i = 0; i < o.wire_mark_done && !ok; ++i) { auto& e = wire[i]; if (!e.c2b || e.malformed || e.pkt.type != reqt) continue;
+            bool same = e.pkt.filters.size() == n && ref::props_equal(e.pkt.props, o.props); for (size_t k = 0; same && k < n; ++k) if (e.pkt.filters[k].first != o.filters[k].first || (reqt == ref::SUBSCRIBE && e.pkt.filters[k].second != o.filters[k].second)) same = false;
+            if (!same) continue; why = "no well-formed acknowledgement with the request's packet id and the handler's reason codes was sent before the completion";
+            for (size_t j = i + 1; j < o.wire_mark_done && !ok; ++j) { auto& a = wire[j]; if (a.c2b || a.pkt.type != ackt || a.pkt.pid != e.pkt.pid) continue;
+                if (a.malformed || a.raw_hostile) continue;
+                if (a.pkt.rcs.size() != n) continue; bool adm = true; for (auto c : a.pkt.rcs) if (!ref::rc_listed(ackt, c)) adm = false; if (!adm) continue;
+                if (a.pkt.rcs == o.rcs && ref::props_equal(a.pkt.props, o.rprops)) ok = true; else why = "handler reason codes / properties differ from the acknowledgement's"; } }
+        if (o.rcs.size() != n) { ok = false; why = "handler received " + std::to_string(o.rcs.size()) + " reason codes for " + std::to_string(n) + " topics"; }
+        if (!ok) w.vio("C14:unfaithful-success:" + opname(o) + ":" + sn, opname(o) + " completed without error but " + why);
+    }
+}
+
+// C15 / C16 (API level) -----------------------------------------------------------------------
+static void mon_reject(World& w, const char* prop) {
+    const std::string& sn = w.sc.name; std::string P = prop;
+    for (auto& o : w.ops) { if (!o.expect_reject) continue;
+        std::string what = opname(o) + ":" + std::to_string(o.tag);
+        if (o.completions == 0) { w.vio(P + ":reject-not-completed:" + sn, "request " + what + " that must be rejected never completed"); continue; }
+        if (!o.ec) { w.vio(P + ":accepted-invalid:" + opname(o) + ":" + sn, "request " + what + " was accepted although it must be rejected locally"); continue; }
+        if (o.expect_ec && o.ec.value() != o.expect_ec) w.vio(P + ":wrong-error:" + opname(o) + ":" + std::to_string(o.expect_ec) + ":" + sn, "request " + what + " completed with '" + o.ec.message() + "' (" + std::to_string(o.ec.value()) + ") instead of error " + std::to_string(o.expect_ec));
+        if (!o.done_in_same_step) w.vio(P + ":reject-not-immediate:" + sn, "rejected request " + what + " did not complete immediately");
+        if (o.lowest_free_id_before >= 0 && o.lowest_free_id_after != o.lowest_free_id_before) w.vio(P + ":id-leaked:" + sn, "rejected request " + what + " changed the packet id allocator (lowest free id " + std::to_string(o.lowest_free_id_before) + " -> " + std::to_string(o.lowest_free_id_after) + ")");
+        if (o.out_volume_after && o.out_volume_after != o.out_volume_before) w.vio(P + ":bytes-written:" + sn, "rejected request " + what + " put bytes on the wire");
+    }
+    // accepted requests must really be accepted
+    for (auto& o : w.ops) { if (o.expect_reject || !is_user_op(o) || o.kind == Action::DISC) continue; if (o.completions && o.ec && o.ec != asio::error::operation_aborted && o.ec.value() >= 100 && o.ec.value() < 120)
+        w.vio(P + ":rejected-valid:" + opname(o) + ":" + std::to_string(o.ec.value()) + ":" + sn, "valid request " + opname(o) + ":" + std::to_string(o.tag) + " was rejected with '" + o.ec.message() + "'"); }
+}
+static void mon_c15(World& w) {
+    const std::string& sn = w.sc.name; auto& wire = w.broker->wire;
+    for (auto& e : wire) { if (!e.c2b || e.malformed) continue; auto& cs = w.broker->cs[e.conn]; if (!cs.handshake_ok) continue;
+        int max_qos = 2, retain_av = 1, alias_max = 0, wild = 1, shared = 1, subid = 1; uint32_t max_size = 0xFFFFFFFFu;
+        for (auto& q : cs.connack_props_sent) { if (q.id == 0x24) max_qos = int(q.num); if (q.id == 0x25) retain_av = int(q.num); if (q.id == 0x22) alias_max = int(q.num); if (q.id == 0x28) wild = int(q.num); if (q.id == 0x2A) shared = int(q.num); if (q.id == 0x29) subid = int(q.num); if (q.id == 0x27) max_size = q.num; }
+        if (e.pkt.type == ref::CONNECT) continue;
+        // only packets that stem from requests initiated while this connection's CONNACK was held: all scenario requests wait for the handshake
+        if (e.raw.size() > max_size) { w.vio("C15:packet-too-large-sent:" + std::string(ref::ptype_name(e.pkt.type)) + ":" + sn, std::string(ref::ptype_name(e.pkt.type)) + " of " + std::to_string(e.raw.size()) + " bytes exceeds the Maximum Packet Size " + std::to_string(max_size)); return; }
+        if (e.pkt.type == ref::PUBLISH) { if (e.pkt.qos() > max_qos) { w.vio("C15:qos-above-maximum:" + sn, "PUBLISH with QoS " + std::to_string(e.pkt.qos()) + " sent, Maximum QoS " + std::to_string(max_qos)); return; }
+            if (e.pkt.retain() && !retain_av) { w.vio("C15:retain-sent:" + sn, "retained PUBLISH sent although Retain Available = 0"); return; }
+            for (auto& q : e.pkt.props) if (q.id == 0x23 && int(q.num) > alias_max) { w.vio("C15:topic-alias-above-maximum:" + sn, "Topic Alias " + std::to_string(q.num) + " sent, Topic Alias Maximum " + std::to_string(alias_max)); return; } }
+        if (e.pkt.type == ref::SUBSCRIBE) { for (auto& f : e.pkt.filters) { bool sh = f.first.compare(0, 7, "$share/") == 0; bool wc = f.first.find_first_of("#+") != std::string::npos;
+                if (sh && !shared) { w.vio("C15:shared-subscription-sent:" + sn, "shared subscription sent although the broker disabled it"); return; }
+                if (wc && !wild) { w.vio("C15:wildcard-subscription-sent:" + sn, "wildcard subscription sent although the broker disabled it"); return; } }
+            for (auto& q : e.pkt.props) if (q.id == 0x0B && !subid) { w.vio("C15:subscription-identifier-sent:" + sn, "Subscription Identifier sent although the broker disabled it"); return; } }
+    }
+    mon_reject(w, "C15");
+}
+
+// C04 ---------------------------------------------------------------------------------------
+// true if the client wrote an acknowledgement (type t, id pid) in a write that was reported as failed to it
+// although the broker received that acknowledgement
+static bool ack_delivered_but_write_failed(World& w, int t, uint16_t pid) {
+    for (auto& wl : w.net->wlog) { if (wl.ok) continue; for (auto& pk : packets_in(wl.data)) { auto r = ref::decode(pk.second); if (r.st != ref::D_OK || r.pkt.type != t || r.pkt.pid != pid) continue;
+            for (auto& e : w.broker->wire) if (e.c2b && !e.malformed && e.conn == wl.conn && e.pkt.type == t && e.pkt.pid == pid) return true; } }
+    return false;
+}
+static void mon_c04(World& w) {
+    const std::string& sn = w.sc.name; auto& wire = w.broker->wire;
+    if (w.capped && w.cap_reason.rfind("REPLAY", 0) == 0) return;
+    // ack discipline per connection
+    for (size_t c = 0; c < w.broker->cs.size(); ++c) {
+        std::map<uint16_t, int> st;   // pid -> 1 PUBLISH q2 seen (await PUBREC), 2 PUBREC seen, 3 PUBREL sent
+        for (auto& e : wire) { if (e.conn != int(c) || e.malformed) continue; auto& p = e.pkt;
+            if (!e.c2b && p.type == ref::PUBLISH && p.qos() == 2) { if (!st.count(p.pid) || st[p.pid] == 0) st[p.pid] = 1; }
+            if (!e.c2b && p.type == ref::PUBREL) st[p.pid] = 3;
+            if (e.c2b && p.type == ref::PUBCOMP) { if (st[p.pid] != 3) { w.vio("C04:pubcomp-before-pubrel:" + sn, "PUBCOMP for id " + std::to_string(p.pid) + " written before a PUBREL was received on this connection"); return; } st[p.pid] = 0; } }
+    }
+    // every message the client has fully read must be acknowledged / every PUBREL answered, by the end of the fault-free suffix
+    bool session_lost_after = false;
+    for (auto& kv : w.broker->sessions) for (auto& m : kv.second.out) {
+        if (m.qos == 0 || m.st == bkr::OutMsg::DONE || m.st == bkr::OutMsg::QUEUED) continue;
+        if (m.qos == 2 && m.st == bkr::OutMsg::PUBREC_RCVD && ack_delivered_but_write_failed(w, ref::PUBREC, m.pid)) {
+            w.vio("C04:pubrel-never-answered-after-failed-pubrec-write", "QoS 2 message tag " + std::to_string(m.tag) + ": the PUBREC reached the broker but its write was reported as failed to the client; the client forgot the exchange, every PUBREL of the broker stays unanswered and the message is never delivered (" + sn + ")"); return; }
+        if (m.qos == 2 && m.st == bkr::OutMsg::PUBREC_RCVD) {
+            // did the client already write a PUBCOMP for this exchange (lost on the way) and later leave a retransmitted PUBREL unanswered?
+            int comp_conn = -1; size_t comp_mark = 0, rel_after = SIZE_MAX;
+            for (auto& wl : w.net->wlog) { if (comp_conn >= 0) break; for (auto& pk : packets_in(wl.data)) { auto r = ref::decode(pk.second); if (r.st == ref::D_OK && r.pkt.type == ref::PUBCOMP && r.pkt.pid == m.pid) { comp_conn = wl.conn; comp_mark = wl.wire_mark; break; } } }
+            if (comp_conn >= 0) for (size_t i = 0; i < wire.size(); ++i) { auto& e = wire[i]; if (!e.malformed && !e.c2b && e.pkt.type == ref::PUBREL && e.pkt.pid == m.pid && e.conn > comp_conn) rel_after = i; }
+            (void)comp_mark;
+            if (rel_after != SIZE_MAX && w.net->conns[wire[rel_after].conn].bytes_b2c_read > 0) {
+                w.vio("C04:retransmitted-pubrel-never-answered", "QoS 2 message tag " + std::to_string(m.tag) + ": the client's PUBCOMP was lost with the connection; the broker retransmitted PUBREL on the next connection and the client never answered it (" + sn + ")"); return; } }
+        w.vio("C04:exchange-not-finished:q" + std::to_string(m.qos) + ":" + sn, "broker message tag " + std::to_string(m.tag) + " (QoS " + std::to_string(m.qos) + ") was still " + (m.st == bkr::OutMsg::SENT ? "unacknowledged" : "waiting for PUBCOMP") + " at the end of the fault-free suffix"); return; }
+    (void)session_lost_after;
+    // delivery: content, order per QoS level, QoS 2 exactly once, QoS 1 at least once
+    std::vector<const OpRec*> recvs; for (auto& o : w.ops) if (o.kind == Action::RECV && o.completions && !o.ec) recvs.push_back(&o);
+    std::sort(recvs.begin(), recvs.end(), [](const OpRec* a, const OpRec* b) { return a->recv_seq < b->recv_seq; });
+    std::map<std::string, const bkr::OutMsg*> by_payload; std::vector<const bkr::OutMsg*> sent;
+    for (auto& kv : w.broker->sessions) for (auto& m : kv.second.out) { by_payload[m.payload] = &m; sent.push_back(&m); }
+    // messages of sessions that were discarded are remembered by the broker model in lost_out
+    for (auto& m : w.broker->lost_out) { by_payload[m.payload] = &m; }
+    std::map<int, int> count; int last_idx[3] = {-1, -1, -1};
+    std::map<const bkr::OutMsg*, int> order; { int i = 0; for (auto& m : w.broker->lost_out) order[&m] = i++; for (auto* m : sent) order[m] = i++; }
+    for (auto* r : recvs) { auto it = by_payload.find(r->r_payload);
+        if (it == by_payload.end()) { w.vio("C04:unknown-message:" + sn, "async_receive delivered a message the broker never sent"); return; }
+        const bkr::OutMsg* m = it->second;
+        if (r->r_topic != m->topic || !ref::props_equal(r->rprops, m->props)) { w.vio("C04:message-differs:" + sn, "message tag " + std::to_string(m->tag) + " reached async_receive with a different topic or properties"); return; }
+        count[m->tag]++;
+        if (m->qos == 2 && count[m->tag] > 1) { w.vio("C04:qos2-duplicate:" + sn, "QoS 2 message tag " + std::to_string(m->tag) + " was handed to the application twice"); return; }
+        int idx = order[m]; if (count[m->tag] == 1) { if (idx < last_idx[m->qos]) { w.vio("C04:order:q" + std::to_string(m->qos) + ":" + sn, "QoS " + std::to_string(m->qos) + " message tag " + std::to_string(m->tag) + " was received before an earlier one of the same QoS"); return; } last_idx[m->qos] = idx; } }
+    bool receiving = false; for (auto& o : w.ops) if (o.kind == Action::RECV) receiving = true;
+    if (!receiving || w.capped) return;
+    size_t pending_recv = 0; for (auto& o : w.ops) if (o.kind == Action::RECV && o.completions == 0) pending_recv++;
+    for (auto* m : sent) { if (m->st != bkr::OutMsg::DONE) continue; if (m->qos == 0) continue;
+        if (count[m->tag] == 0 && ack_delivered_but_write_failed(w, m->qos == 1 ? ref::PUBACK : ref::PUBCOMP, m->pid)) {
+            w.vio(std::string("C04:message-lost-when-final-ack-write-fails-after-delivery:q") + std::to_string(m->qos), "QoS " + std::to_string(m->qos) + " message tag " + std::to_string(m->tag) + ": the " + (m->qos == 1 ? "PUBACK" : "PUBCOMP") + " reached the broker but its write was reported as failed to the client; the client dropped the message without handing it to async_receive and the broker will not retransmit it (" + sn + ")"); return; }
+        if (count[m->tag] == 0) { w.vio("C04:settled-not-delivered:q" + std::to_string(m->qos) + ":" + sn, "QoS " + std::to_string(m->qos) + " message tag " + std::to_string(m->tag) + " was acknowledged to the broker but never reached async_receive"); return; } }
+}
+
 void run_monitors(World& w) {
     uint32_t m = w.sc.monitors;
     mon_broker(w);
@@ -219,6 +529,16 @@ void run_monitors(World& w) {
     if (m & M_C06) mon_c06(w);
     if (m & M_C07) mon_c07(w);
     if (m & M_C08) mon_c08(w);
+    if (m & M_C04) mon_c04(w);
+    if (m & M_C05) mon_c05_stop(w);
+    if (m & M_C09) mon_c09(w);
+    if (m & M_C10) mon_c10(w);
+    if (m & M_C11) mon_c11(w);
+    if (m & M_C12) mon_c12(w);
+    if (m & M_C13) mon_c13(w);
+    if (m & M_C14) mon_c14(w);
+    if (m & M_C15) mon_c15(w);
+    if (m & M_C16) mon_reject(w, "C16");
 }
 
 // ------------------------------------------------------------------ scenario sets
@@ -281,6 +601,196 @@ std::vector<Scenario> scenarios_for(const std::string& prop, int tier) {
         { auto s = base("I-mixed-out-of-order", {RUN(), PUB(1, 1), SUB({{"a", 1}}), PUB(2, 2), UNSUB({"b"}), BARRIER(), PUB(1, 3), PUB(2, 4)}, fam, tier ? 2 : 1, M_C08); v.push_back(s); }
         { auto s = base("I-cancel-middle", {RUN(), slot(PUB(1, 1)), slot(PUB(1, 2)), slot(PUB(1, 3)), PUB(1, 4)}, fam | F_INJECT, tier ? 3 : 2, M_C08); s.inject = SIGNAL(2, 1); s.after_inject = {PUB(1, 5), PUB(2, 6)}; v.push_back(s); }
         { auto s = base("I-rm1-reconnect", {RUN(), PUB(1, 1), PUB(2, 2), PUB(1, 3)}, fam | F_TAIL, 2, M_C08); s.broker.connack_props = {ref::pnum(0x21, 1)}; v.push_back(s); }
+    }
+    else if (prop == "C05" || prop == "C09") {
+        bool c9 = prop == "C09"; uint32_t mon = c9 ? (M_C09 | M_C05) : M_C05;
+        // base states; the stop action is injected at every choice point (and, with F_FINE, between any two handlers)
+        struct B { const char* name; std::vector<Action> script; ref::Props ca; int flavour; };
+        std::vector<B> bases = {
+            {"B1-never-run", {slot(PUB(1, 1)), slot(SUB({{"a", 1}})), slot(RECV(1))}, {}, 0},
+            {"B2-connecting", {slot(RUN()), slot(PUB(1, 1)), slot(PUB(0, 2)), slot(RECV(1))}, {}, 0},
+            {"B4-connected-rm1", {slot(RUN()), slot(RECV(1)), slot(PUB(1, 1)), slot(PUB(2, 2)), slot(SUB({{"a", 1}})), slot(PUB(0, 3))}, {ref::pnum(0x21, 1)}, 0},
+            {"B4-connected-rm1-tcp", {slot(RUN()), slot(RECV(1)), slot(PUB(1, 1)), slot(PUB(2, 2)), slot(UNSUB({"a"}))}, {ref::pnum(0x21, 1)}, 1},
+            {"B7-two-brokers", {slot(RUN()), slot(PUB(1, 1)), slot(RECV(1))}, {}, 0},
+        };
+        struct I { const char* name; Action act; bool restart; };
+        std::vector<I> injs;
+        if (!c9) { injs.push_back({"cancel", CANCEL(), true}); injs.push_back({"destroy", A(Action::DESTROY), false}); injs.push_back({"move-assign", A(Action::MOVE_ASSIGN), false});
+            injs.push_back({"disconnect", DISC(0), true});
+            for (int op = 0; op < 5; ++op) for (int ty : {1, 2, 4}) { if (ty == 2 && op > 1) continue; injs.push_back({"signal", SIGNAL(op, ty), false}); } }
+        else { injs.push_back({"disconnect", DISC(0), true}); injs.push_back({"disconnect-rc4-props", DISC(0x04, {ref::pstr(0x1F, "bye"), ref::ppair("k", "v"), ref::pnum(0x11, 5)}), true}); }
+        for (auto& b : bases) for (auto& in : injs) {
+            if (in.act.k == Action::SIGNAL && in.act.target_op >= int(b.script.size())) continue;
+            uint32_t netfam = F_WR | F_RDCUT | F_CONN | F_HS | F_BCLOSE | F_SHUT;
+            Scenario s = base(std::string(b.name) + "+" + in.name + (in.act.k == Action::SIGNAL ? "-op" + std::to_string(in.act.target_op) + "-t" + std::to_string(in.act.sig_type) : ""), b.script, F_INJECT | F_FINE | (tier ? netfam | F_REORDER : (c9 ? netfam : 0)), tier ? 2 : (c9 ? 2 : 1), mon);
+            s.flavour = b.flavour; s.broker.connack_props = b.ca; s.inject = in.act; s.expect_all_success = false;
+            if (std::string(b.name) == "B7-two-brokers") { s.hosts = "b0,b1"; s.fam |= F_CONN | F_HS; s.D = 2; }
+            if (in.restart) { s.after_inject = {RUN(), PUB(1, 90), PUB(2, 91)}; }
+            if (c9) { s.idle_tail_s = 0; }
+            if (in.act.k == Action::SIGNAL) { s.monitors &= ~M_C09; }
+            s.max_steps = 900;
+            v.push_back(s);
+        }
+        if (c9) {
+            // scripted disconnects: in the middle of traffic, with an oversized DISCONNECT, followed by 120 s of observed silence
+            { auto s = base("D1-disconnect-after-traffic", {RUN(), PUB(1, 1), PUB(2, 2), PUB(0, 3), DISC(0x04, {ref::pstr(0x1F, "bye")})}, F_WR | F_RDCUT | F_BCLOSE | F_REORDER | F_SHUT | F_WRSHORT, 2, mon); s.idle_tail_s = 120; s.epilogue_cancel = false; s.expect_all_success = false; v.push_back(s); s.name += "-tcp"; s.flavour = 1; v.push_back(s); }
+            { Action d = DISC(0x00, {ref::pstr(0x1F, std::string(200, 'r')), ref::ppair("k", "v")}); d.tag = 777;
+              auto s = base("D2-oversized-disconnect", {RUN(), PUB(1, 1), BARRIER(), d}, F_WR | F_RDCUT | F_REORDER, 1, mon); s.broker.connack_props = {ref::pnum(0x27, 60)}; s.idle_tail_s = 30; s.epilogue_cancel = false; s.expect_all_success = false; v.push_back(s); }
+            { auto s = base("D3-disconnect-unreachable", {RUN(), PUB(1, 1), DISC(0)}, F_CONN | F_HS | F_REORDER, 3, mon); s.hosts = "b0,b1"; s.idle_tail_s = 120; s.epilogue_cancel = false; s.expect_all_success = false; v.push_back(s); }
+        }
+    }
+    else if (prop == "C10") {
+        // handshake outcome sequences x broker lists
+        uint32_t fam = F_CONN | F_HS | F_REORDER;
+        { auto s = base("H1-one-broker", {RUN(), PUB(1, 1)}, fam, tier ? 4 : 3, M_C10 | M_C02); v.push_back(s); }
+        { auto s = base("H2-two-brokers", {RUN(), PUB(1, 1)}, fam, tier ? 4 : 3, M_C10 | M_C02); s.hosts = "b0, b1:1884"; v.push_back(s); }
+        { auto s = base("H3-three-brokers-two-addresses", {RUN(), PUB(1, 1), PUB(2, 2)}, fam & ~F_REORDER, tier ? 4 : 3, M_C10 | M_C02); s.hosts = "b0,b1,b2"; s.dns_two_mask = 2; v.push_back(s); }
+        { auto s = base("H4-unresolvable-first", {RUN(), PUB(1, 1)}, fam, 2, M_C10 | M_C02); s.hosts = "b0,b1"; s.dns_fail_mask = 1; v.push_back(s); }
+        { auto s = base("H5-traffic-before-connack", {PUB(1, 1), SUB({{"a", 1}}), RUN(), PUB(2, 2)}, fam | F_CHUNK | F_DELAY, 2, M_C10); s.expect_all_success = false; v.push_back(s); }
+        { auto s = base("H6-auth-two-step", {RUN(), PUB(1, 1)}, fam | F_WR | F_RDCUT, 2, M_C10 | M_C02); s.auth.present = true; s.auth.method = "SCRAM"; s.broker.auth_method = "SCRAM"; s.broker.auth_rounds = 2; v.push_back(s); }
+        { auto s = base("H7-tcp-reconnects", {RUN(), PUB(1, 1), PUB(1, 2)}, fam | F_WR | F_RDCUT | F_BCLOSE, 2, M_C10 | M_C02); s.flavour = 1; s.hosts = "b0,b1"; v.push_back(s); }
+        // configuration product (one handshake each, D = 0; the CONNECT is compared with the configuration)
+        std::vector<uint8_t> cp_ids = {0x11, 0x21, 0x27, 0x22, 0x19, 0x17, 0x26};
+        int n_cfg = 0;
+        for (int cr = 0; cr < 4; ++cr) for (int wl = 0; wl < 3; ++wl) for (uint16_t ka : {uint16_t(0), uint16_t(10), uint16_t(65535)}) for (uint32_t mask = 0; mask < 128; ++mask) {
+            if (!tier && (mask * 7 + cr * 3 + wl + ka) % 9 != 0 && mask != 127 && mask != 0) continue;
+            Scenario s = base("K-" + std::to_string(n_cfg++), {RUN(), WAIT_HS(1)}, 0, 0, M_C10);
+            s.client_id = (cr & 1) ? "" : "client-" + std::to_string(mask); if (cr & 1) s.user = "user"; if (cr & 2) s.pass = std::string("p\x01w", 3); s.keep_alive = ka;
+            for (int b = 0; b < 7; ++b) if (mask & (1u << b)) { if (cp_ids[b] == 0x26) { s.connect_props.push_back(ref::ppair("a", "b")); s.connect_props.push_back(ref::ppair("a", "")); } else { ref::Prop q = glue_typical(cp_ids[b]); s.connect_props.push_back(q); } }
+            if (wl) { s.will.present = true; s.will.topic = "will/t"; s.will.payload = std::string("w\x00", 2); s.will.qos = (mask + cr) % 3; s.will.retain = mask & 1;
+                if (wl == 2) s.will.props = {ref::pnum(0x18, 30), ref::pnum(0x01, 1), ref::pnum(0x02, 60), ref::pstr(0x03, "ct"), ref::pstr(0x08, "resp/t"), ref::pstr(0x09, std::string("c\x00", 2)), ref::ppair("wk", "wv")}; }
+            v.push_back(s);
+        }
+    }
+    else if (prop == "C11") {
+        uint32_t fam = F_WR | F_RDCUT | F_LOSS | F_REORDER | F_BCLOSE | F_NOREPLY | F_CONN | F_HS | F_SHUT;
+        { auto s = base("S1-write-and-read-fail", {RUN(), PUB(1, 1), PUB(2, 2), SUB({{"a", 1}})}, fam, tier ? 3 : 2, M_C11); v.push_back(s); s.name += "-tcp"; s.flavour = 1; v.push_back(s); }
+        { auto s = base("S2-keepalive-timeout-meets-sentry", {RUN(), PUB(1, 1), PUB(2, 2)}, fam, tier ? 3 : 2, M_C11); s.keep_alive = 2; s.max_steps = 900; v.push_back(s); s.name += "-tcp"; s.flavour = 1; v.push_back(s); }
+        { auto s = base("S3-two-brokers", {RUN(), PUB(1, 1), PUB(1, 2)}, fam, 2, M_C11); s.hosts = "b0,b1"; v.push_back(s); }
+        { auto s = base("S4-cancel-during-reconnect", {RUN(), PUB(1, 1)}, fam | F_INJECT | F_FINE, 2, M_C11 | M_C05); s.inject = CANCEL(); s.expect_all_success = false; v.push_back(s); }
+    }
+    else if (prop == "C12") {
+        for (int K : {0, 1, 2, 5, 60}) for (int ska : {-1, 0, 1, 3}) for (int traffic = 0; traffic < 3; ++traffic) {
+            if (!tier && K == 60 && ska > 0) continue;
+            std::vector<Action> sc = {RUN()}; if (traffic == 2) { sc.push_back(PUB(1, 1)); sc.push_back(PUB(0, 2)); }
+            Scenario s = base("T-K" + std::to_string(K) + "-ska" + std::to_string(ska) + "-traffic" + std::to_string(traffic), sc, (tier ? F_REORDER | F_RDCUT | F_WR : F_REORDER), tier ? 2 : 1, M_C12);
+            s.keep_alive = uint16_t(K); if (ska >= 0) s.broker.connack_props = {ref::pnum(0x13, uint32_t(ska))};
+            s.broker.pingresp = traffic != 0; int negotiated = ska >= 0 ? ska : K;
+            s.idle_tail_s = negotiated == 0 ? 3600 : std::max(20, negotiated * 5); s.max_steps = 3000; s.horizon_s = 100000; s.expect_all_success = false;
+            v.push_back(s); if (traffic == 0 && (K == 2 || ska == 1)) { s.name += "-tcp"; s.flavour = 1; v.push_back(s); }
+        }
+    }
+    else if (prop == "C13") {
+        // all sequences up to the length over {S ok, F all failed, X cancelled subscribe, R0 reconnect sp=0, R1 reconnect sp=1, M broker publishes}
+        int L = tier ? 5 : 4; const char* alpha = "SFXrRM"; int nseq = 0;
+        std::vector<int> idx; std::function<void()> gen = [&]() {
+            if (!idx.empty()) { Scenario s = base("Q-", {RUN(), RECV(12)}, 0, 0, M_C13); std::string nm; int subs = 0, recon = 0; s.broker.sp_policy = {-1};
+                for (int k : idx) { char c = alpha[k]; nm.push_back(c);
+                    if (c == 'S') { s.script.push_back(SUB({{"s/" + std::to_string(subs), 1}})); s.script.push_back(BARRIER()); subs++; }
+                    if (c == 'F') { s.script.push_back(SUB({{"f/" + std::to_string(subs), 1}})); s.script.push_back(BARRIER()); s.broker.suback_script.resize(subs + 1); s.broker.suback_script[subs] = {0x87}; subs++; }
+                    if (c == 'X') { Action a = slot(SUB({{"x/" + std::to_string(subs), 1}})); s.script.push_back(a); s.script.push_back(SIGNAL(-2, 1)); s.script.push_back(A(Action::KILLCONN)); s.script.push_back(WAIT_HS(2 + recon)); s.script.push_back(BARRIER()); recon++; s.broker.sp_policy.push_back(-1); subs++; }
+                    if (c == 'r' || c == 'R') { s.script.push_back(A(Action::KILLCONN)); s.script.push_back(WAIT_HS(2 + recon)); recon++; s.broker.sp_policy.push_back(c == 'r' ? 0 : -1); }
+                    if (c == 'M') { s.script.push_back(BPUB(1, 100 + int(s.script.size()))); } }
+                for (size_t i = 0; i < s.broker.suback_script.size(); ++i) if (s.broker.suback_script[i].empty()) s.broker.suback_script[i] = {0x01};
+                s.name += nm; s.expect_all_success = false; s.fam = tier ? (F_REORDER | F_CHUNK) : 0; s.D = tier ? 1 : 0; s.idle_tail_s = 0; nseq++;
+                v.push_back(s); }
+            if (int(idx.size()) == L) return;
+            for (int k = 0; k < 6; ++k) { idx.push_back(k); gen(); idx.pop_back(); } };
+        gen();
+        // reconnect through the write path and through both paths at once, with faults around the CONNACK
+        { auto s = base("Q-faulty-SrMS", {RUN(), RECV(8), SUB({{"a", 1}}), BARRIER(), PUB(1, 1), PUB(2, 2), SUB({{"b", 1}})}, F_WR | F_RDCUT | F_BCLOSE | F_REORDER | F_TAIL, tier ? 3 : 2, M_C13); s.broker.sp_policy = {-1, 0, -1, 0}; s.expect_all_success = false; v.push_back(s); }
+    }
+    else if (prop == "C14") {
+        std::vector<uint8_t> codes = {0x00, 0x01, 0x02, 0x80, 0x87, 0x03, 0x11, 0x9E};
+        int id = 0;
+        auto add = [&](bool unsub, int n, std::vector<uint8_t> rcs) { std::vector<std::pair<std::string, uint8_t>> f; std::vector<std::string> uf; const char* names[] = {"plain/t", "wild/+/#", "$share/g/sh"};
+            for (int i = 0; i < n; ++i) { static const uint8_t optv[] = {0x01, 0x2E, 0x1A}; f.emplace_back(names[i], optv[i]); uf.push_back(names[i]); }
+            Scenario s = base(std::string(unsub ? "U" : "S") + std::to_string(n) + "-" + std::to_string(id++), {RUN(), unsub ? UNSUB(uf, {ref::ppair("k", "v")}) : SUB(f, {ref::pnum(0x0B, 9), ref::ppair("k", "v")})}, tier ? (F_REORDER | F_CHUNK | F_RDCUT | F_WR) : F_REORDER, tier ? 2 : 1, M_C14 | M_C02);
+            if (unsub) s.broker.unsuback_script = {rcs}; else s.broker.suback_script = {rcs}; s.broker.ack_props = true; v.push_back(s); };
+        for (int unsub = 0; unsub < 2; ++unsub) for (int n = 1; n <= 3; ++n) for (int cnt = std::max(1, n - 1); cnt <= n + 1; ++cnt) {
+            std::vector<int> ix(cnt, 0);
+            for (;;) { std::vector<uint8_t> rcs; for (int i : ix) rcs.push_back(codes[i]); bool keep = tier || cnt <= 2 || (ix[0] * 5 + ix[1] * 3 + ix[2] + (cnt > 3 ? ix[3] : 0)) % 4 == 0; if (keep) add(unsub, n, rcs);
+                int k = cnt - 1; while (k >= 0 && ++ix[k] == int(codes.size())) ix[k--] = 0; if (k < 0) break; } }
+        { auto s = base("S-all-options", {RUN()}, F_REORDER, 1, M_C14 | M_C02); for (int o = 0; o < 36; ++o) { int q = o % 3, nl = (o / 3) % 2, rap = (o / 6) % 2, rh = o / 12; s.script.push_back(SUB({{"opt/" + std::to_string(o), uint8_t((rh << 4) | (rap << 3) | (nl << 2) | q)}})); } s.max_steps = 2000; v.push_back(s); }
+    }
+    else if (prop == "C15") {
+        // capability products x boundary requests; every request waits for the previous one
+        int id = 0;
+        for (int mq : {-1, 0, 1}) for (int ra : {-1, 0, 1}) for (int tam : {-1, 0, 1, 5}) for (int caps = 0; caps < (tier ? 27 : 9); ++caps) {
+            int wild = caps % 3 - 1, shared = (caps / 3) % 3 - 1, subid = tier ? (caps / 9) % 3 - 1 : (caps % 2 ? 0 : -1);
+            Scenario s = base("Cap-" + std::to_string(id++), {RUN(), WAIT_HS(1)}, 0, 0, M_C15);
+            auto& ca = s.broker.connack_props; if (mq >= 0) ca.push_back(ref::pnum(0x24, mq)); if (ra >= 0) ca.push_back(ref::pnum(0x25, ra)); if (tam >= 0) ca.push_back(ref::pnum(0x22, tam));
+            if (wild >= 0) ca.push_back(ref::pnum(0x28, wild)); if (shared >= 0) ca.push_back(ref::pnum(0x2A, shared)); if (subid >= 0) ca.push_back(ref::pnum(0x29, subid));
+            int tag = 1; auto req = [&](Action a, int reject_ec) { a.tag = tag++; if (a.k == Action::PUB) a.payload = "payload-" + std::to_string(a.tag); a.expect_reject = reject_ec != 0; a.expect_ec = reject_ec; s.script.push_back(a); s.script.push_back(BARRIER()); };
+            int maxq = mq < 0 ? 2 : mq;
+            for (int q = 0; q <= 2; ++q) req(PUB(q, 0), q > maxq ? 105 : 0);                                   // qos_not_supported
+            req(PUB(0, 0, true), ra == 0 ? 106 : 0);                                                          // retain_not_available
+            int am = tam < 0 ? 0 : tam;
+            for (int al : {1, am, am + 1}) { if (al == 0) continue; Action a = PUB(0, 0, false, {ref::pnum(0x23, uint32_t(al))}); req(a, (am == 0 || al > am) ? 107 : 0); }   // topic_alias_maximum_reached
+            { Action a = SUB({{"w/+", 1}}); req(a, wild == 0 ? 108 : 0); }                                       // wildcard_subscription_not_available
+            { Action a = SUB({{"$share/g/t", 1}}); req(a, shared == 0 ? 110 : 0); }                              // shared_subscription_not_available
+            { Action a = SUB({{"$share/g/+", 1}}); req(a, shared == 0 ? 110 : (wild == 0 ? 108 : 0)); }
+            { Action a = SUB({{"p/t", 1}}, {ref::pnum(0x0B, 5)}); req(a, subid == 0 ? 109 : 0); }                // subscription_identifier_not_available
+            s.max_steps = 1500; v.push_back(s);
+        }
+        // Maximum Packet Size boundaries: s-1, s, s+1 for each request kind
+        { ref::Packet pp; pp.type = ref::PUBLISH; pp.flags = 2; pp.pid = 1; pp.topic = "t/0"; pp.payload = "payload-1"; size_t ps = ref::encode(pp).size();
+          ref::Packet sp; sp.type = ref::SUBSCRIBE; sp.pid = 1; sp.filters = {{"size/t", 1}}; size_t ss = ref::encode(sp).size();
+          ref::Packet up; up.type = ref::UNSUBSCRIBE; up.pid = 1; up.filters = {{"size/t", 0}}; size_t us = ref::encode(up).size();
+          for (int kind = 0; kind < 3; ++kind) for (int d = -1; d <= 1; ++d) { size_t sz = (kind == 0 ? ps : kind == 1 ? ss : us) + d;
+              Scenario s = base("MaxSize-" + std::to_string(kind) + "-" + std::to_string(d + 1), {RUN(), WAIT_HS(1)}, 0, 0, M_C15); s.broker.connack_props = {ref::pnum(0x27, uint32_t(sz))};
+              Action a = kind == 0 ? PUB(1, 1) : kind == 1 ? SUB({{"size/t", 1}}) : UNSUB({"size/t"}); if (kind == 0) { a.topic = "t/0"; } a.tag = 1; a.expect_reject = d < 0; a.expect_ec = d < 0 ? 101 : 0;   // packet_too_large
+              s.script.push_back(a); s.script.push_back(BARRIER()); v.push_back(s); } }
+    }
+    else if (prop == "C16") {
+        // public API with every string of length <= 2 over a reduced alphabet in each string-valued field
+        static const unsigned char AL[] = {0x00, 0x1F, 0x20, '#', '+', '/', 'a', 0x7F, 0x80, 0xC2, 0xA0, 0xC3, 0xBE, 0xEF, 0xBF, 0xFF};
+        std::vector<std::string> strs = {""}; for (unsigned char a : AL) strs.push_back(std::string(1, char(a))); for (unsigned char a : AL) for (unsigned char b : AL) { std::string x; x.push_back(char(a)); x.push_back(char(b)); strs.push_back(x); }
+        strs.push_back("\xEF\xBF\xBE"); strs.push_back("\xEF\xB7\x90"); strs.push_back("\xED\xA0\x80"); strs.push_back("\xF4\x90\x80\x80"); strs.push_back("\xE2\x82\xAC/\xF0\x9F\x98\x80"); strs.push_back(std::string(65535, 't')); strs.push_back(std::string(65536, 't'));
+        enum { INVALID_TOPIC = 104, MALFORMED = 100 };
+        const char* fields[] = {"pub-topic", "pub-topic-alias", "pub-payload-utf8", "pub-response-topic", "pub-content-type", "pub-user-key", "pub-user-value", "sub-filter", "sub-shared-filter", "sub-user-key", "unsub-filter", "unsub-user-value", "disc-reason", "disc-user-key"};
+        for (int f = 0; f < 14; ++f) { if (!tier && f >= 12) { /* disconnect fields: one request per execution */ }
+            size_t per = f >= 12 ? 1 : 90; for (size_t start = 0; start < strs.size(); start += per) {
+                if (f >= 12 && !tier && start % 7 != 0 && start + 8 < strs.size()) continue;
+                Scenario s = base(std::string("V-") + fields[f] + "-" + std::to_string(start), {RUN(), WAIT_HS(1)}, 0, 0, M_C16); s.broker.connack_props = {ref::pnum(0x22, 10)}; s.max_steps = 2500; s.expect_all_success = false;
+                for (size_t i = start; i < std::min(strs.size(), start + per); ++i) { const std::string& x = strs[i]; Action a; bool ok = true; int ec = MALFORMED;
+                    switch (f) {
+                        case 0: a = PUB(0, 0); a.topic = x; ok = ref::topic_name_ok(x); ec = INVALID_TOPIC; break;
+                        case 1: a = PUB(0, 0, false, {ref::pnum(0x23, 3)}); a.topic = x; ok = ref::topic_alias_name_ok(x); ec = INVALID_TOPIC; break;
+                        case 2: a = PUB(0, 0, false, {ref::pnum(0x01, 1)}); a.payload = x; ok = ref::mqtt_utf8_ok(x); break;
+                        case 3: a = PUB(0, 0, false, {ref::pstr(0x08, x)}); ok = ref::topic_name_ok(x); break;
+                        case 4: a = PUB(0, 0, false, {ref::pstr(0x03, x)}); ok = ref::mqtt_utf8_ok(x); break;
+                        case 5: a = PUB(0, 0, false, {ref::ppair(x, "v")}); ok = ref::mqtt_utf8_ok(x); break;
+                        case 6: a = PUB(0, 0, false, {ref::ppair("k", x)}); ok = ref::mqtt_utf8_ok(x); break;
+                        case 7: a = SUB({{x, 1}}); ok = x.compare(0, 7, "$share/") == 0 ? ref::shared_filter_ok(x) : ref::topic_filter_ok(x); ec = INVALID_TOPIC; break;
+                        case 8: a = SUB({{"$share/" + x, 1}}); ok = ref::shared_filter_ok("$share/" + x) && ("$share/" + x).size() <= 65535; ec = INVALID_TOPIC; break;
+                        case 9: a = SUB({{"a", 1}}, {ref::ppair(x, "v")}); ok = ref::mqtt_utf8_ok(x); break;
+                        case 10: a = UNSUB({x}); ok = x.compare(0, 7, "$share/") == 0 ? ref::shared_filter_ok(x) : ref::topic_filter_ok(x); ec = INVALID_TOPIC; break;
+                        case 11: a = UNSUB({"a"}, {ref::ppair("k", x)}); ok = ref::mqtt_utf8_ok(x); break;
+                        case 12: a = DISC(0, {ref::pstr(0x1F, x)}); ok = ref::mqtt_utf8_ok(x); break;
+                        case 13: a = DISC(0, {ref::ppair(x, "v")}); ok = ref::mqtt_utf8_ok(x); break; }
+                    a.tag = int(i + 1); if (a.k == Action::PUB && f != 2) a.payload = "payload-" + std::to_string(a.tag);
+                    a.expect_reject = !ok; a.expect_ec = ok ? 0 : ec; s.script.push_back(a); s.script.push_back(BARRIER()); }
+                if (f >= 12) s.epilogue_cancel = false;
+                v.push_back(s); } }
+        // numeric bounds: subscription identifier and topic alias
+        { Scenario s = base("V-numeric-bounds", {RUN(), WAIT_HS(1)}, 0, 0, M_C16); s.broker.connack_props = {ref::pnum(0x22, 65535)}; int tag = 1;
+          for (uint32_t sid : {0u, 1u, 127u, 268435455u, 268435456u, 0x7FFFFFFFu}) { Action a = SUB({{"n/" + std::to_string(tag), 1}}, {ref::pnum(0x0B, sid)}); a.tag = tag++; a.expect_reject = sid < 1 || sid > 268435455u; a.expect_ec = a.expect_reject ? 100 : 0; s.script.push_back(a); s.script.push_back(BARRIER()); }
+          for (uint32_t al : {0u, 1u, 65535u}) { Action a = PUB(0, tag, false, {ref::pnum(0x23, al)}); a.tag = tag++; a.payload = "payload-" + std::to_string(a.tag); a.expect_reject = al == 0; a.expect_ec = al == 0 ? 100 : 0; s.script.push_back(a); s.script.push_back(BARRIER()); }
+          { Action a = PUB(1, tag, false, {ref::pnum(0x0B, 5)}); a.tag = tag++; a.expect_reject = true; a.expect_ec = 100; s.script.push_back(a); s.script.push_back(BARRIER()); }
+          { Action a = SUB({}); a.tag = tag++; a.expect_reject = true; a.expect_ec = 104; s.script.push_back(a); s.script.push_back(BARRIER()); }
+          { Action a = UNSUB({}); a.tag = tag++; a.expect_reject = true; a.expect_ec = 104; s.script.push_back(a); s.script.push_back(BARRIER()); }
+          v.push_back(s); }
+    }
+    else if (prop == "C04") {
+        uint32_t fam = F_CHUNK | F_RDCUT | F_WR | F_TAIL | F_REORDER | F_LOSS | F_BCLOSE | (tier ? F_BYTE : 0);
+        ref::Props mp = {ref::pnum(0x01, 1), ref::pstr(0x03, "ct"), ref::ppair("mk", "mv"), ref::pnum(0x0B, 3), ref::pnum(0x0B, 4)};
+        { auto s = base("M1-q0-q1-q2", {RUN(), RECV(12), SUB({{"b/#", 2}}), BARRIER(), BPUB(0, 1, mp), BPUB(1, 2, mp), BPUB(2, 3, mp)}, fam, tier ? 3 : 2, M_C04); v.push_back(s); s.name += "-tcp"; s.flavour = 1; s.D = tier ? 2 : 1; v.push_back(s); }
+        { auto s = base("M2-q2-q2", {RUN(), RECV(12), SUB({{"b/#", 2}}), BARRIER(), BPUB(2, 1), BPUB(2, 2)}, fam, tier ? 3 : 2, M_C04); v.push_back(s); }
+        { auto s = base("M3-q1x3", {RUN(), RECV(12), SUB({{"b/#", 2}}), BARRIER(), BPUB(1, 1), BPUB(1, 2), BPUB(1, 3)}, fam & ~F_CHUNK, 2, M_C04); v.push_back(s); }
+        { auto s = base("M4-interleaved-with-publishing", {RUN(), RECV(12), SUB({{"b/#", 2}}), BARRIER(), BPUB(2, 1), PUB(2, 50), BPUB(1, 2), PUB(1, 51)}, fam & ~F_CHUNK, tier ? 2 : 1, M_C04 | M_C01); v.push_back(s); }
+        { auto s = base("M5-session-lost", {RUN(), RECV(12), SUB({{"b/#", 2}}), BARRIER(), BPUB(2, 1), BPUB(1, 2)}, fam & ~F_CHUNK, 2, M_C04); s.broker.sp_policy = {-1, 0, -1}; v.push_back(s); }
+        for (auto& s : v) s.expect_all_success = false;
     }
     else if (prop == "C17") {
         v = publish_scenarios(M_C17, 0); for (auto& s : v) s.D = 1;
